@@ -21,6 +21,7 @@ RULE = ("Trees with NCName element / attribute names (ASCII and non-ASCII name c
         "the scope is injective), in-scope bindings, content / tail up to surrounding whitespace, also through "
         "from_xml in raw and clean mode; EML exporter: names (eml -> eml:eml in the EML namespace), attributes, order, "
         "exact text.  Non-trivial: some value contains < > & \" ' or a non-ASCII character, or a prefix is re-declared.")
+RULE += ('  A branch exported on its own (to_xml on an inner node, on its copy, on the node after removal) is a document of its own that declares every binding of the branch.')
 ASSUMPTIONS = [
     "namespace names are URIs (lxml refuses other strings: a parser precondition)",
     "two prefixes bound to one URI make the prefix of a qualified attribute unrecoverable: compared by expanded name then",
